@@ -7,6 +7,7 @@ package props
 import (
 	"fmt"
 	"math/big"
+	"sync"
 	"testing"
 
 	"github.com/bnb-chain/tss-lib/v2/tss"
@@ -81,7 +82,42 @@ func genC06Route(protos []string) func(t *rapid.T) c06Route {
 	}
 }
 
+type foreignMsg struct {
+	bytes []byte
+	bcast bool
+}
+
+var foreignMu sync.Mutex
+var foreignPool = map[string][]foreignMsg{}
+
+// foreignMessages: wire messages of the two EdDSA protocols other than proto (ECDSA ones are left out: producing
+// them costs seconds per process), one per message type.
+func foreignMessages(proto string) []foreignMsg {
+	foreignMu.Lock()
+	defer foreignMu.Unlock()
+	var out []foreignMsg
+	for _, p := range edProtos {
+		if p == proto {
+			continue
+		}
+		if _, ok := foreignPool[p]; !ok {
+			x := fixedRun(p, 3, 1, 1).build()
+			x.net.Run(sim.FIFO{}, 100000)
+			seen := map[string]bool{}
+			for _, e := range x.net.Emits {
+				if !seen[e.Type] {
+					seen[e.Type] = true
+					foreignPool[p] = append(foreignPool[p], foreignMsg{e.Bytes, e.Bcast})
+				}
+			}
+		}
+		out = append(out, foreignPool[p]...)
+	}
+	return out
+}
+
 func runC06Route(c c06Route) ev.Outcome {
+	foreignMessages(c.Run.Proto) // fill the pool first: building those runs sets process-global test dimensions
 	x := c.Run.build()
 	net := x.net
 	kinds := map[string]int{}
@@ -104,7 +140,15 @@ func runC06Route(c c06Route) ev.Outcome {
 		d := s.D
 		h := &sim.Delivery{E: d.E, To: d.To, From: d.From, Bytes: d.Bytes, Bcast: d.Bcast, Tag: "hostile"}
 		n := len(net.Nodes)
-		switch v % 10 {
+		switch v % 11 {
+		case 10: // a well-formed message of ANOTHER protocol (all message types are registered process-wide)
+			fm := foreignMessages(c.Run.Proto)
+			if len(fm) == 0 {
+				return
+			}
+			f := fm[(v/11)%len(fm)]
+			h.Bytes, h.Bcast = f.bytes, f.bcast
+			kinds["foreign-protocol"]++
 		case 9: // any small sender index (inside one committee's range, outside the other's)
 			h.From = fakeID((v/10)%(n+2), d.From.KeyInt())
 			kinds["sender-index-any"]++
